@@ -45,6 +45,29 @@ Proof.
   constructor; [exact Hok|now apply IH].
 Qed.
 
+(* 1w. the same with interpreters that read but do not write bytecode mixed in, in any order *)
+Lemma run1w_inv f h s w : inv f -> inv (fst (run1w f (h, s, w))) /\ run_ok (h, s) (snd (run1w f (h, s, w))).
+Proof.
+  intros Hinv. unfold run1w. pose proof (run1_inv f (h, s) Hinv) as [Hi Hok].
+  destruct (run1 f (h, s)) as [f' c]. cbn [fst snd] in *. destruct w; split; assumption.
+Qed.
+
+Theorem runsw_never_mix rs : forall f, inv f ->
+  Forall2 run_ok (map fst rs) (runsw f rs).
+Proof.
+  induction rs as [|[[h s] w] rs IH]; intros f Hf; cbn [runsw map]; [constructor|].
+  pose proof (run1w_inv f h s w Hf) as [Hi Hok].
+  destruct (run1w f (h, s, w)) as [f' c]. cbn [fst snd] in *.
+  constructor; [exact Hok|now apply IH].
+Qed.
+
+(* a history in which every run writes is the old notion *)
+Lemma runsw_all_write rs : forall f, runsw f (map (fun r => (r, true)) rs) = runs f rs.
+Proof.
+  induction rs as [|[h s] rs IH]; intro f; cbn [runsw runs map]; [reflexivity|].
+  unfold run1w. destruct (run1 f (h, s)) as [f' c]. now rewrite IH.
+Qed.
+
 (* 2. exactness when every hooked run uses the same AST-relevant options *)
 Definition inv_k (k : nat) (f : fs) : Prop :=
   (forall s c, plain_slot f = Some (s, c) -> c = CPlain s) /\
